@@ -36,8 +36,10 @@ func makeInternalWriteLog(writeLog writelog.WriteLog, annotations writelog.Annot
 			log = append(log, append([]byte{internalWriteLogKindDelete}, entry.Key...))
 		} else {
 			iptr := annotations[i].InsertedNode.DBInternal.(*dbPtr)
-			if iptr.isInvalid() {
-				// The leaf cannot be looked up by its own database key, store it inline.
+			if iptr.isInvalid() || iptr.isRoot() {
+				// The leaf cannot be looked up by its own database key (an embedded leaf has none and a
+				// root node, possibly one inherited from an earlier version, is stored under its root
+				// hash instead), store it inline.
 				leafKey, _ := node.Key(entry.Key).MarshalBinary()
 				inline := append([]byte{internalWriteLogKindInsertInline}, leafKey...)
 				log = append(log, append(inline, entry.Value...))
